@@ -336,3 +336,82 @@ def l3_schedule(chk, ctx, rng, n):
                 if not same(got_dt, this):
                     chk.fail(key + ':kernel-dt', 'step from t=%.6g: the sweep along axis %d got dt = %.12g, this_dt = min(dt, T - t) = %.12g' % (t0_, k + 1, got_dt, this), inp); bad = True; break
             if bad: break
+
+# ------------------------------------------------------------------ round 6: the C kernels called directly (ctypes)
+# The Cython wrappers of the 2-D/3-D kernels pass the extent of the SOLVED axis as the end of the outermost loop (known finding
+# F-02, harmless in the public API where all axes share one grid).  The C functions themselves take that end as a parameter, so
+# on NON-cubic arrays — where a wrong stride or a swapped coordinate inside a kernel body cannot hide — they are called through
+# ctypes, every argument bound by the NAME of the C parameter (read from the current source; an unknown name: no call).
+AXL = 'xyzab'
+GRIDNAMES = ['xx', 'yy', 'zz', 'aa', 'bb']
+DIMNAMES = ['L', 'M', 'N', 'O', 'P']
+
+class CKernels:
+    def __init__(self, ctx):
+        import ctypes, re, sys
+        self.ct = ctypes
+        self.ok = False; self.why = ''
+        self.sigs = {}
+        try:
+            dadi = ctx['dadi']
+            self.lib = ctypes.CDLL(dadi.integration_c.__file__)
+            here = os.path.dirname(os.path.dirname(os.path.abspath(__file__)))
+            sys.path.insert(0, os.path.join(here, 'tools'))
+            import translate
+            srcdir = os.path.dirname(dadi.integration_c.__file__)
+            for d in range(1, 6):
+                cf = translate.c_functions(os.path.join(srcdir, 'integration%dD.c' % d))
+                for name, (args, body) in cf.items():
+                    if name.startswith('implicit_'): self.sigs[name] = args
+            self.ok = True
+        except Exception as e:            # no shared object / no source next to it: the direct calls are skipped, nothing else
+            self.why = repr(e)
+
+    def bind(self, name, d, ax, phi, grids=None, nu=None, ms=None, gamma=None, h=None, beta=None, dt=None, use=False, coef=None):
+        """argument list for C function `name` by parameter name; None if a parameter is not understood"""
+        import re
+        ct = self.ct
+        sig = self.sigs.get(name)
+        if sig is None or not hasattr(self.lib, name): return None
+        others = [l for l in range(d) if l != ax]
+        out = []; keep = []
+        for pname, isptr, ctype in sig:
+            if isptr:
+                if pname == 'phi': arr = phi
+                elif grids is not None and pname in GRIDNAMES[:d]: arr = np.ascontiguousarray(grids[GRIDNAMES.index(pname)], dtype=float)
+                elif coef is not None and re.match(r'^[abc][%s]$' % AXL[ax], pname): arr = coef['abc'.index(pname[0])]
+                else: return None
+                if not (arr.flags['C_CONTIGUOUS'] and arr.dtype == np.float64): return None
+                keep.append(arr); out.append(arr.ctypes.data_as(ct.POINTER(ct.c_double)))
+            elif ctype == 'double':
+                mm = re.match(r'^m(\d)(\d)$', pname)
+                if pname == 'dt': v = dt
+                elif pname == 'beta': v = beta
+                elif re.match(r'^nu\d?$', pname) and pname in ('nu', 'nu%d' % (ax + 1)): v = nu
+                elif re.match(r'^gamma\d?$', pname) and pname in ('gamma', 'gamma%d' % (ax + 1)): v = gamma
+                elif re.match(r'^h\d?$', pname) and pname in ('h', 'h%d' % (ax + 1)): v = h
+                elif mm and int(mm.group(1)) == ax + 1 and (int(mm.group(2)) - 1) in others: v = ms[others.index(int(mm.group(2)) - 1)]
+                else: return None
+                if v is None: return None
+                out.append(ct.c_double(float(v)))
+            elif ctype == 'int':
+                if pname in DIMNAMES[:d]: v = phi.shape[DIMNAMES.index(pname)]
+                elif pname == 'use_delj_trick': v = int(bool(use))
+                elif pname.endswith('start'): v = 0
+                elif pname.endswith('end') and others: v = phi.shape[others[0]]
+                else: return None
+                out.append(ct.c_int(int(v)))
+            else:
+                return None
+        return out, keep
+
+    def call(self, name, d, ax, phi, **kw):
+        """run the C function in place on a C-contiguous copy of phi; None if it cannot be called"""
+        if not self.ok: return None
+        work = np.ascontiguousarray(np.array(phi, dtype=float, copy=True))
+        b = self.bind(name, d, ax, work, **kw)
+        if b is None: return None
+        args, keep = b
+        f = getattr(self.lib, name); f.restype = None
+        f(*args)
+        return work
